@@ -321,46 +321,6 @@ func (set *Set) syncHealthy(h *Host) {
 	}
 }
 
-func (set *Set) addToHealthy(host ...*Host) {
-	if len(host) == 0 {
-		return
-	}
-	for _, h := range host {
-		if h == nil {
-			continue
-		}
-		switch h.Type {
-		case TypeMain:
-			set.healthyMain[h.Addr] = h
-		case TypeBackup:
-			set.healthyBackup[h.Addr] = h
-		default:
-			continue
-		}
-	}
-	set.buildHealthyCache()
-}
-
-func (set *Set) removeFromHealthy(host ...*Host) {
-	if len(host) == 0 {
-		return
-	}
-	for _, h := range host {
-		if h == nil {
-			continue
-		}
-		switch h.Type {
-		case TypeMain:
-			delete(set.healthyMain, h.Addr)
-		case TypeBackup:
-			delete(set.healthyBackup, h.Addr)
-		default:
-			continue
-		}
-	}
-	set.buildHealthyCache()
-}
-
 func (set *Set) buildHealthyCache() {
 	hostMap := set.healthy()
 
@@ -434,10 +394,13 @@ func (set *Set) MarkHostHealthy(host *Host) bool {
 	verifhook.At("host.Set.mark.afterCAS", host)
 	set.Lock()
 	defer set.Unlock()
-	if _, ok := set.all[host.Addr]; !ok {
+	// only the stored object of the address counts: the caller may hold an
+	// object that has been replaced or removed in the meantime.
+	if set.all[host.Addr] != host {
 		return false
 	}
-	set.addToHealthy(host)
+	set.syncHealthy(host)
+	set.buildHealthyCache()
 	return true
 }
 
@@ -449,10 +412,11 @@ func (set *Set) MarkHostUnhealthy(host *Host) bool {
 	verifhook.At("host.Set.mark.afterCAS", host)
 	set.Lock()
 	defer set.Unlock()
-	if _, ok := set.all[host.Addr]; !ok {
+	if set.all[host.Addr] != host {
 		return false
 	}
-	set.removeFromHealthy(host)
+	set.syncHealthy(host)
+	set.buildHealthyCache()
 	return true
 }
 
